@@ -34,6 +34,26 @@ Definition norm_cell (bagf : list field) (c : field * val) : field * val :=
   end.
 Definition norm_rows (bagf : list field) (rs : list row) : list row := map (map (norm_cell bagf)) rs.
 
+(* a row is a record: a later rule of a predicate may write its named columns in another order than the first
+   rule, so the evaluator's rows are brought to the column order of the returned header before the comparison
+   (same length and every header column present exactly as a cell, otherwise the row is left as it is and
+   the comparison fails) *)
+Fixpoint lookup_cell (f : field) (r : row) : option (field * val) :=
+  match r with
+  | [] => None
+  | c :: r' => if Nat.eqb (fst c) f then Some c else lookup_cell f r'
+  end.
+Definition align_row (header : list field) (r : row) : row :=
+  if Nat.eqb (List.length r) (List.length header) then
+    match fold_right (fun f acc => match acc, lookup_cell f r with
+                                   | Some l, Some c => Some (c :: l)
+                                   | _, _ => None
+                                   end) (Some []) header with
+    | Some r' => r'
+    | None => r
+    end
+  else r.
+
 (* 0: equal bags (and column names); 1: different; 10 + c: the evaluator failed with code c *)
 Definition check_pred (D : res db) (q : pred * list field * list field * list (list val)) : nat :=
   let '(p, header, bagf, rows) := q in
@@ -42,7 +62,7 @@ Definition check_pred (D : res db) (q : pred * list field * list field * list (l
   | Ok D' =>
       match lookup_db p D' with
       | None => 15%nat
-      | Some mine => if bag_eqb (norm_rows bagf mine) (norm_rows bagf (mk_rows header rows)) then 0%nat else 1%nat
+      | Some mine => if bag_eqb (norm_rows bagf (map (align_row header) mine)) (norm_rows bagf (mk_rows header rows)) then 0%nat else 1%nat
       end
   end.
 
